@@ -277,6 +277,34 @@ class CFG:
         return ' -> '.join('L%s' % p.line if p.line else p.kind for p in path)
 
 
+def binds_name(node, name):
+    """does executing this CFG node (re)bind the local `name`?"""
+    st = node.ast
+    if node.kind == 'stmt':
+        if isinstance(st, ast.Assign):
+            return any(isinstance(x, ast.Name) and x.id == name for t in st.targets for x in ast.walk(t))
+        if isinstance(st, (ast.AugAssign, ast.AnnAssign)):
+            return isinstance(st.target, ast.Name) and st.target.id == name
+        if isinstance(st, (ast.FunctionDef, ast.ClassDef)):
+            return st.name == name
+    if node.kind == 'iter':
+        return any(isinstance(x, ast.Name) and x.id == name for x in ast.walk(st.target))
+    return False
+
+
+def reaching_defs(cfg, name, at):
+    """CFG nodes binding `name` whose binding may reach node `at` (plus 'entry' if unbound path)"""
+    defs = [n for n in cfg.nodes if binds_name(n, name)]
+    out = []
+    for d in defs:
+        others = [x for x in defs if x is not d]
+        if at in cfg.reach([d], avoid=others):
+            out.append(d)
+    if at in cfg.reach([cfg.entry], avoid=defs, include_start=True):
+        out.append(cfg.entry)
+    return out
+
+
 _cfg_cache = {}
 
 
